@@ -191,12 +191,12 @@ func newCrashRig(t *testing.T, sh crashShape, tag string) *crashRig {
 	cl := ckit.NewCluster(t, ckit.Options{})
 	cl.Wipe()
 	pod := "p" + tag
-	cl.AddPod(pod)
+	addPod(cl, pod)
 	r := &crashRig{t: t, cl: cl, shape: sh, x: newIDs(), tag: tag}
 	for _, n := range nodeNames(sh.Nodes) {
 		name := n + tag
 		r.nodes = append(r.nodes, name)
-		cl.AddNode(ckit.NodeSpec{Name: name, Pod: pod, CPU: 8, Memory: 16 << 30})
+		addNode(cl, ckit.NodeSpec{Name: name, Pod: pod, CPU: 8, Memory: 16 << 30})
 	}
 	sort.Strings(r.nodes)
 	if sh.Prior > 0 {
